@@ -61,6 +61,12 @@ def run(tier, seed, replay):
                         dict(gen=gen, event=rj["event"]))
         if gen == "v2" and evs:
             cov["samples"].append(evs[0])
+    # regeneration (last clause): the real generator run twice over its own output, in both output layouts, with a
+    # hand-written custom typeref and user files beside the generated code
+    from props import c12
+    st = dict(generator_runs=0)
+    c12.regen_layouts(scr, verdict, lib.go_module(scr, "gen", "v2"), PROP, st)
+    totals["regenerations"] = st["generator_runs"]
     cov.update(totals)
     cov["traces_validated_against_impl"] = totals["traces"]
     cov["evaluations"] = totals["replayed"]
@@ -73,6 +79,6 @@ def run(tier, seed, replay):
     lib.write_evidence(PROP, tier, seed, cov, [
         "an already-empty directory is removed like one emptied by the cleaning (the repository's own tests expect this)",
         "symbolic links, unreadable directories and a directory named like the manifest are not modelled",
-        "regeneration (GenerateCode after cleaning) is exercised under C12",
+        "regeneration: v2 generator, one schema set with a custom typeref, flat and package-root layouts",
     ], time.time() - t0, nv)
     return code
